@@ -134,6 +134,13 @@ def norm_color(value: str):
   m = re.fullmatch(r"#([0-9a-fA-F]{2})([0-9a-fA-F]{2})([0-9a-fA-F]{2})([0-9a-fA-F]{2})?", v)
   if m:
     return (int(m.group(1), 16), int(m.group(2), 16), int(m.group(3), 16), int(m.group(4), 16) if m.group(4) else 255)
+  # the functional notations of CSS / TTML <color>, which the readers' shared colour parser accepts as well
+  m = re.fullmatch(r"rgb\(\s*(\d{1,3})\s*,\s*(\d{1,3})\s*,\s*(\d{1,3})\s*\)", v)
+  if m and all(int(x) <= 255 for x in m.groups()):
+    return (int(m.group(1)), int(m.group(2)), int(m.group(3)), 255)
+  m = re.fullmatch(r"rgba\(\s*(\d{1,3})\s*,\s*(\d{1,3})\s*,\s*(\d{1,3})\s*,\s*(\d{1,3})\s*\)", v)
+  if m and all(int(x) <= 255 for x in m.groups()):
+    return tuple(int(x) for x in m.groups())
   return NAMED_COLORS.get(v.lower())
 
 
